@@ -147,6 +147,8 @@ where
         RescaleInto { .. } | RescaleAssign { .. } => m.ckks_rescale_tmp_bytes(),
         Align { .. } => m.ckks_align_tmp_bytes(),
         NegAssign { .. } | DivPow2Assign { .. } | Compact { .. } | CompactCopy { .. } | Realloc { .. } => return None,
+        // the composites are driven through `XAct` in this part (the base menu is generated without them)
+        AddMany { .. } | MulMany { .. } | DotCt { .. } | DotPt { .. } => return None,
     })
 }
 
@@ -564,7 +566,9 @@ where
     Module<B>: HalAll<B> + CoreAll<B> + CkksAll<B>,
     Scratch<B>: ScratchTakeCore<B> + ScratchAvailable,
 {
-    let mut v: Vec<XAct> = menu(cx, st, mc).into_iter().map(XAct::Base).collect();
+    let mut base_cfg = mc.clone();
+    base_cfg.list_patterns = vec![];
+    let mut v: Vec<XAct> = menu(cx, st, &base_cfg).into_iter().map(XAct::Base).collect();
     let live = |l: &Vec<u8>| l.iter().all(|&r| !st.regs[r as usize].blank);
     let pats: Vec<Vec<u8>> = list_patterns().into_iter().filter(live).collect();
     let dnum = cx.p.dnum();
